@@ -18,6 +18,10 @@ type c14Sc struct {
 	Knobs   []map[string]int `json:"knob_vectors"`
 	PadLens []int            `json:"pad_lens"` // real padding lengths for the fidelity leg (empty = none)
 	PadKind string           `json:"pad_kind"` // text | comment
+	// AlignAt: additionally pad before one top-level segment so that the segment starts at these absolute
+	// offsets (values around powers of two and other round numbers: window / size-class edges)
+	AlignAt  []int `json:"align_at,omitempty"`
+	AlignSeg int   `json:"align_seg,omitempty"`
 }
 
 type propC14 struct{}
@@ -89,6 +93,22 @@ func (propC14) Gen(seed uint64, ex map[string]bool) interface{} {
 			sc.PadLens = append(sc.PadLens, pick(r, all)-r.N(8))
 		}
 		sort.Ints(sc.PadLens)
+		if r.P(70) {
+			n := r.Range(1, 3)
+			for i := 0; i < n; i++ {
+				var b int
+				switch r.N(4) {
+				case 0, 1:
+					b = 1 << uint(r.Range(6, 18))
+				case 2:
+					b = pick(r, []int{1000, 10000, 100000, 4096 * 3, 4096 * 5, 65536 + 32768, 20 * 1024, 100 * 1024})
+				default:
+					b = (1 << uint(r.Range(10, 17))) * r.Range(2, 3)
+				}
+				sc.AlignAt = append(sc.AlignAt, b-r.N(4)+1) // b-2 … b+1
+			}
+			sc.AlignSeg = r.N(8)
+		}
 	}
 	return sc
 }
@@ -208,6 +228,42 @@ func (propC14) Run(scI interface{}) *Outcome {
 			}
 		}
 	}
+	// alignment leg: one insertion point, tag start placed at offsets around round boundaries
+	if len(sc.AlignAt) > 0 && base.Class == "ok" {
+		var main *Tmpl
+		for i := range sc.Prog.Templates {
+			if sc.Prog.Templates[i].Name == sc.Prog.Main {
+				main = &sc.Prog.Templates[i]
+			}
+		}
+		if len(main.Segs) > 0 && !strings.Contains(main.Segs[0], "extends") {
+			at := sc.AlignSeg % len(main.Segs)
+			prefix := strings.Join(main.Segs[:at], "")
+			rest := strings.Join(main.Segs[at:], "")
+			const sentinel = "\x02"
+			ref, _ := c14Render(sc.Prog, nil, prefix+sentinel+rest)
+			if ref.Class == "ok" {
+				for _, off := range sc.AlignAt {
+					n := off - len(prefix)
+					if n < 1 {
+						continue
+					}
+					pad := strings.Repeat("q", n)
+					got, w := c14Render(sc.Prog, nil, prefix+pad+rest)
+					o.Probes["aligned_renders"]++
+					o.Nontrivial = true
+					fp = simrt.Mix(fp, w.Fingerprint(), strHash(got.Key()))
+					want := strings.ReplaceAll(ref.Out, sentinel, pad)
+					if got.Class != "ok" || got.Out != want {
+						o.FP = fp
+						o.Viol = &Violation{Oracle: "padding-changes-only-padding", Sig: fmt.Sprintf("a construct starting at a particular offset is read differently (%s)", got.Class),
+							Detail: fmt.Sprintf("main template %q: %d bytes of text inserted before segment %d so that it starts at offset %d\n expected tail: %s\n got tail:      %s err=%s", mainSrc, n, at, off, lastN(want, 200), lastN(got.Out, 200), got.Err)}
+						return o
+					}
+				}
+			}
+		}
+	}
 	if len(sc.PadLens) == 0 {
 		o.Probes["padded_renders"] += 0
 	}
@@ -217,6 +273,13 @@ func (propC14) Run(scI interface{}) *Outcome {
 	}
 	o.Sample = map[string]interface{}{"main": tail(mainSrc, 300), "knob_vectors": sc.Knobs, "pad_lens": sc.PadLens, "pad_kind": sc.PadKind, "result": base.Class}
 	return o
+}
+
+func lastN(s string, n int) string {
+	if len(s) > n {
+		return "…" + s[len(s)-n:]
+	}
+	return s
 }
 
 func (propC14) Shrink(scI interface{}) []interface{} {
@@ -245,6 +308,18 @@ func (propC14) Shrink(scI interface{}) []interface{} {
 	if len(sc.PadLens) > 0 {
 		c := clone()
 		c.PadLens = nil
+		out = append(out, c)
+	}
+	if len(sc.AlignAt) > 1 {
+		for i := range sc.AlignAt {
+			c := clone()
+			c.AlignAt = []int{sc.AlignAt[i]}
+			out = append(out, c)
+		}
+	}
+	if len(sc.AlignAt) > 0 {
+		c := clone()
+		c.AlignAt = nil
 		out = append(out, c)
 	}
 	for ti, t := range sc.Prog.Templates {
